@@ -229,3 +229,28 @@ Proof.
   - apply negpart_nodiag, clear_diag_nodiag.
 Qed.
 End Cbrt.
+
+(* ---------- the quotients of the per-node routines never divide by zero on the property's domain:
+   whenever the (masked) numerator is nonzero the denominator is strictly positive ---------- *)
+Lemma no_div0_bd n A i : binary n A -> nodiag n A -> (i < n)%nat ->
+  ~ tri_dir n A i == 0 -> 0 < poss_dir n A i.
+Proof.
+  intros Hb Hd Hi Hnz.
+  assert (H : 0 <= tri_dir n A i <= poss_dir n A i).
+  { apply tri_le_poss; auto. intros a b Ha Hb'. destruct (binary_bounds n A a b Hb Ha Hb'). lra. }
+  destruct H as [H0 H1]. destruct (Qlt_le_dec 0 (poss_dir n A i)) as [L|L]; [exact L|]. exfalso. apply Hnz. lra.
+Qed.
+
+Lemma no_div0_wd cbrt n W i : cbrt_ok cbrt n W -> unit_weights n W -> nodiag n W -> (i < n)%nat ->
+  ~ tri_dir n (mmap cbrt W) i == 0 -> 0 < poss_dir n (mmap nzQ W) i.
+Proof.
+  intros Hc Hu Hd Hi Hnz. destruct (wd_tri_le_poss cbrt n W i Hc Hu Hd Hi) as [H0 H1].
+  destruct (Qlt_le_dec 0 (poss_dir n (mmap nzQ W) i)) as [L|L]; [exact L|]. exfalso. apply Hnz. lra.
+Qed.
+
+Lemma no_div0_wu cbrt n W i : cbrt_ok cbrt n W -> unit_weights n W -> symmetric n W -> nodiag n W -> (i < n)%nat ->
+  ~ diag3 n (mmap cbrt W) i == 0 -> 0 < kdeg n W i * (kdeg n W i - 1).
+Proof.
+  intros Hc Hu Hs Hd Hi Hnz. destruct (wu_cyc3_bound cbrt n W i Hc Hu Hs Hd Hi) as [H0 H1].
+  destruct (Qlt_le_dec 0 (kdeg n W i * (kdeg n W i - 1))) as [L|L]; [exact L|]. exfalso. apply Hnz. lra.
+Qed.
